@@ -25,7 +25,9 @@ RAISED = ['KeyError', 'IndexError', 'LookupError', 'ValueError', 'ZeroDivisionEr
 NS = {'f1': fn('F1', plain('R1')), 'f2': fn('F2', plain('R2')), 'v': plain('V'),
       'error_type': plain('outer-et'), 'error_value': plain('outer-ev'),
       'seq': lst('s', [plain('i1'), plain('i2')]), 'o': obj('O', a=plain('A')),
-      'rv': plain('RETURNED'), 'rz': plain('z', False), 'rn': num(7)}
+      'rv': plain('RETURNED'), 'rz': plain('z', False), 'rn': num(7),
+      # dtml-return hands back the value itself, whatever its type: bytes stay bytes, containers keep their identity
+      'rb': byt('caf\u00e9 \u20ac'), 'rl': lst('RL', [plain('e1'), plain('e2')]), 'rm': mp('RM', k=plain('v')), 'ro': obj('RO', a=plain('A'))}
 
 
 def raiser(cls, tag):
@@ -101,7 +103,8 @@ def cases_for(tier, rng):
                 Try([raiser('KeyError', 'x')], [(['KeyError'], inner)], None),
                 Try([T('ok')], [([], [T('h')])], inner), TryF(inner, [T('fin')]), TryF([T('tb')], inner),
                 Raise('ValueError', inner), Comment('c')]
-    for ret in (Return(N('rv')), Return(N('rz')), Return(N('rn')), Return(C('f2')), raiser('KeyError', 'deep'),
+    for ret in (Return(N('rv')), Return(N('rz')), Return(N('rn')), Return(C('f2')), Return(N('rb')), Return(X('rb')), Return(N('rl')),
+                Return(X('rm')), Return(N('ro')), raiser('KeyError', 'deep'),
                 raiser('ValueError', 'deep')):
         lv1 = blocks([T('in'), ret, T('unreached')])
         for b1 in lv1:
